@@ -55,6 +55,7 @@ struct TeakraBusRobP {
 };
 template struct TeakraBusRobP<&Teakra::Processor::impl>;
 
+extern unsigned char g_new_fill;
 namespace {
 using Teakra::RegisterState;
 #include "regflat.inc"
@@ -125,7 +126,7 @@ struct BusUnit {
         ev.Add(std::string("x") + k + std::to_string(width) + ":" + Hex(a) + ":" + Hex(val));
     }
 
-    void New(bool use_user, bool has_seed, uint64_t seed) {
+    void New(bool use_user, bool has_seed, uint64_t seed, bool raw = false) {
         t.reset();
         user = use_user;
         Teakra::UserConfig cfg;
@@ -166,8 +167,8 @@ struct BusUnit {
         auto ov = A::IcuOnVectored(*v.icu);
         A::IcuOnInterrupt(*v.icu) = [this, oi](u32 i) { ev.Add("i" + Hex(i)); oi(i); };
         A::IcuOnVectored(*v.icu) = [this, ov](u32 a, bool c) { ev.Add("v" + Hex(a) + ":" + Hex(c)); ov(a, c); };
-        // the constructor leaves the ICU vector arrays uninitialised
-        for (unsigned i = 0; i < 16; ++i) {
+        // the constructor leaves the ICU vector arrays uninitialised (`newraw` keeps them as constructed: C17)
+        for (unsigned i = 0; i < 16 && !raw; ++i) {
             t->MMIOWrite((u16)(0x212 + 4 * i), 0);
             t->MMIOWrite((u16)(0x214 + 4 * i), 0);
         }
@@ -441,10 +442,14 @@ struct BusUnit {
         if (x.empty()) throw std::string("bad-op");
         const std::string& op = x[0];
         size_t n = x.size();
-        if (op == "new") {
+        if (op == "new" || op == "newraw") {
             if (n < 2 || n > 3 || (x[1] != "own" && x[1] != "user")) throw std::string("bad-op");
             uint64_t seed = n == 3 ? H(x[2]) : 0;
-            New(x[1] == "user", n == 3, seed);
+            New(x[1] == "user", n == 3, seed, op == "newraw");
+            return "ok";
+        }
+        if (op == "fill" && n == 2) {   // byte every later heap allocation is pre-filled with (C17)
+            g_new_fill = (unsigned char)H(x[1]);
             return "ok";
         }
         if (!t) New(false, false, 0);
